@@ -215,7 +215,9 @@ class Gen:
         if k == 'rel':
             return {'k': 'rel', 'n': rng.choice(self.names)}
         if k == 'query':
-            return {'k': 'query', 'q': rng.choice(['owner', 'has', 'queued', 'list']), 'n': rng.choice(self.names)}
+            q = rng.choice(['owner', 'has', 'queued', 'list', 'owner', 'has', 'queued', 'list', 'uid', 'pid', 'id', 'acts'])
+            n = rng.choice(self.names + (['org.freedesktop.DBus', '{u%d}' % rng.choice(self.slots)] if q in ('uid', 'pid') else []))
+            return {'k': 'query', 'q': q, 'n': n}
         if k == 'addmatch':
             r = self.rule()
             self.rulesof[s].append(r)
